@@ -168,7 +168,7 @@ let writers_case (mode : string) (d : string) (mstart : string) (mlen : string) 
         (((k = "v"), n_of_bigdec ts), fetch_tables [| f0; f1; f2; f3; f4; f5; f6 |])
       | _ -> failwith "bad W track") (split_on '|' tracks) in
   let pf = { C11FetchModel.pf_bytes = bytes_of_hex file; pf_mdat_start = n_of_bigdec mstart;
-             pf_mdat_len = n_of_bigdec mlen; pf_lazy = (mode = "lazy") } in
+             pf_mdat_len = n_of_bigdec mlen; pf_lazy = (mode = "lazy" || mode = "muxlazy") } in
   let pos0 = n_of_int 24 in
   let trex id = { C05Model.tx_track = id; tx_ddur = N0; tx_dsize = N0; tx_dflags = N0 } in
   try
